@@ -1,5 +1,444 @@
 package main
 
-func cmdCheck(args []string) int  { return 2 }
-func cmdReplay(args []string) int { return 2 }
-func cmdLedger(args []string) int { return 2 }
+// `govc check <property>`: decide one property, write evidence, print
+// KNOWN-FINDING / VIOLATION / UNDECIDED lines, exit 0 or 1.
+
+import (
+	"bufio"
+	"crypto/sha256"
+	"encoding/hex"
+	"encoding/json"
+	"flag"
+	"fmt"
+	"os"
+	"path/filepath"
+	"regexp"
+	"runtime"
+	"sort"
+	"strconv"
+	"strings"
+	"time"
+)
+
+type LedgerEntry struct {
+	Func string `json:"func"`
+	Hash string `json:"hash"` // hash of the function's SSA (incl. inlined callees) at the time the obligation was discharged
+}
+
+type Ledger struct {
+	Note        string                 `json:"note"`
+	Obligations map[string]LedgerEntry `json:"obligations"`
+}
+
+func loadLedger(path string) *Ledger {
+	l := &Ledger{Obligations: map[string]LedgerEntry{}}
+	b, err := os.ReadFile(path)
+	if err != nil {
+		return l
+	}
+	json.Unmarshal(b, l)
+	if l.Obligations == nil {
+		l.Obligations = map[string]LedgerEntry{}
+	}
+	return l
+}
+
+type KnownFinding struct {
+	Property   string
+	Obligation string
+	Text       string
+}
+
+var findingRe = regexp.MustCompile(`^finding:\s+property=(\S+)\s+obligation=(.+?)\s+--\s+(.*)$`)
+
+func loadFindings(path string) []KnownFinding {
+	var out []KnownFinding
+	f, err := os.Open(path)
+	if err != nil {
+		return nil
+	}
+	defer f.Close()
+	sc := bufio.NewScanner(f)
+	for sc.Scan() {
+		line := strings.TrimSpace(sc.Text())
+		if m := findingRe.FindStringSubmatch(line); m != nil {
+			out = append(out, KnownFinding{m[1], strings.TrimSpace(m[2]), m[3]})
+		}
+	}
+	return out
+}
+
+func hasTag(tags []string, p string) bool {
+	for _, t := range tags {
+		if t == p {
+			return true
+		}
+	}
+	return false
+}
+
+// funcDepHash: SSA hash of a function combined with the hashes of the package functions it inlines.
+func (v *Verifier) funcDepHash(name string, seen map[string]bool) string {
+	fn := v.funcs[name]
+	if fn == nil {
+		return "missing"
+	}
+	if seen[name] {
+		return ""
+	}
+	seen[name] = true
+	h := v.ssaHash(fn)
+	// inlined callees (contracts marked inline, or closures)
+	var deps []string
+	for _, b := range fn.Blocks {
+		for _, ins := range b.Instrs {
+			cc := callCommonOf(ins)
+			if cc == nil {
+				continue
+			}
+			if callee := cc.StaticCallee(); callee != nil {
+				cn := shortName(callee)
+				if c := v.cf.Funcs[cn]; c != nil && c.Inline {
+					deps = append(deps, cn)
+				}
+			}
+		}
+	}
+	sort.Strings(deps)
+	for _, d := range deps {
+		h += "+" + v.funcDepHash(d, seen)
+	}
+	s := sha256.Sum256([]byte(h))
+	return hex.EncodeToString(s[:8])
+}
+
+type Sample struct {
+	Obligation string `json:"obligation"`
+	Clause     string `json:"clause"`
+	Status     string `json:"status"`
+	Solver     string `json:"solver"`
+	Ms         int64  `json:"ms"`
+	Paths      int    `json:"paths"`
+}
+
+type Evidence struct {
+	PropertyID  string                 `json:"property_id"`
+	Tier        string                 `json:"tier"`
+	Seed        int                    `json:"seed"`
+	Level       string                 `json:"level"`
+	Coverage    map[string]interface{} `json:"coverage"`
+	Assumptions []string               `json:"assumptions"`
+	WallS       float64                `json:"wall_s"`
+	Violations  int                    `json:"violations"`
+}
+
+var globalAssumptions = []string{
+	"A1 tooling: go/types and go/ssa (x/tools v0.29.0) represent the program faithfully; govc's translation of the SSA subset and the SMT solvers (z3 5.1.0, z3 4.8.12, cvc5 1.0.3) are sound",
+	"A2 sequential semantics: each function is verified as one goroutine running from entry to return without interference",
+	"A3 sync/atomic operations are plain loads/stores; mutexes are ghost lock counts (no blocking semantics)",
+	"A4 machine integers are mathematical integers with range typing on values that enter a function; conversions wrap exactly; +,-,* are not checked for overflow except in functions marked `overflow`",
+	"A13 allocator freshness: objects returned by new/make/&T{} are distinct from every object allocated before (free-list reuse by mkNode/mkNodeLoc/mkRootNodeLoc is covered only by their contracts)",
+	"exported package variables MagicBeg, MagicEnd and the unexported constants set by init are not assigned by clients (mechanically checked inside the package only)",
+}
+
+func cmdCheck(args []string) int {
+	fs := flag.NewFlagSet("check", flag.ExitOnError)
+	tier := fs.String("tier", os.Getenv("VERIF_TIER"), "quick or thorough")
+	repo := fs.String("repo", "/repo", "repository")
+	verif := fs.String("verif", "/verif", "verif directory")
+	contracts := fs.String("contracts", "", "contract file (default <repo>/contracts_verif.go)")
+	noEvidence := fs.Bool("no-evidence", false, "do not write the evidence file (used by self-tests on scratch trees)")
+	// allow the property before or after the flags
+	var prop string
+	rest := args
+	if len(rest) > 0 && !strings.HasPrefix(rest[0], "-") {
+		prop = rest[0]
+		rest = rest[1:]
+	}
+	fs.Parse(rest)
+	if prop == "" && fs.NArg() > 0 {
+		prop = fs.Arg(0)
+	}
+	if prop == "" {
+		usage()
+	}
+	if *tier == "" {
+		*tier = "quick"
+	}
+	seed := 0
+	if s := os.Getenv("VERIF_SEED"); s != "" {
+		seed, _ = strconv.Atoi(s)
+	}
+	if *contracts == "" {
+		*contracts = contractPath(*repo)
+	}
+	t0 := time.Now()
+	v, err := loadVerifier(*repo, *contracts)
+	if err != nil {
+		fmt.Fprintf(os.Stderr, "govc: cannot load %s: %v\n", *repo, err)
+		fmt.Printf("TOOLING-ERROR property=%s the repository does not load/type-check: %v\n", prop, err)
+		return 2
+	}
+	names := selectFuncs(v, nil, []string{prop})
+	results := verifyMany(v, names)
+	var obls []*Obligation
+	funcErrs := map[string][]string{}
+	for _, r := range results {
+		if len(r.Errors) > 0 {
+			funcErrs[r.Name] = r.Errors
+		}
+		for _, o := range r.Obls {
+			if hasTag(o.Tags, prop) {
+				obls = append(obls, o)
+			}
+		}
+	}
+	work := filepath.Join(*verif, ".work", fmt.Sprintf("check-%s-%d", prop, os.Getpid()))
+	defer os.RemoveAll(work)
+	timeout := 10
+	thorough := *tier == "thorough"
+	if thorough {
+		timeout = 60
+	}
+	stats := solveAll(obls, work, timeout, runtime.NumCPU(), thorough)
+	agg := aggregate(obls)
+	ledger := loadLedger(filepath.Join(*verif, "ledger.json"))
+	findings := loadFindings(filepath.Join(*verif, "known_findings.txt"))
+	hashes := map[string]string{}
+	for _, n := range names {
+		hashes[n] = v.funcDepHash(n, map[string]bool{})
+	}
+	// an obligation of a function whose verification hit engine errors is undecided
+	discharged := 0
+	violations := 0
+	var undecided, known []string
+	var samples []Sample
+	replayDir := filepath.Join(*verif, "out", "replays")
+	for _, a := range agg {
+		if len(funcErrs[a.Func]) > 0 && a.Status == "proved" && a.Kind != "cover" {
+			// keep proved status: errors are reported separately and make the run non-proof
+		}
+		if len(samples) < 12 || a.Status != "proved" {
+			samples = append(samples, Sample{a.Name, a.Src, a.Status, a.Solver, a.Ms, a.Paths})
+		}
+		if a.Status == "proved" {
+			discharged++
+			continue
+		}
+		// known finding?
+		isKnown := false
+		for _, kf := range findings {
+			if kf.Property == prop && kf.Obligation == a.Name {
+				fmt.Printf("KNOWN-FINDING: property=%s %s -- %s\n", prop, a.Name, kf.Text)
+				known = append(known, a.Name)
+				isKnown = true
+				break
+			}
+		}
+		if isKnown {
+			continue
+		}
+		le, inLedger := ledger.Obligations[a.Name]
+		changed := inLedger && le.Hash != hashes[a.Func]
+		switch a.Status {
+		case "failed":
+			// a model of the negated VC exists
+			rp := writeReplay(replayDir, prop, a, v, work, *repo)
+			if rp.reproduced {
+				fmt.Printf("VIOLATION property=%s replay=%s\n", prop, rp.path)
+				violations++
+			} else if inLedger {
+				fmt.Printf("VIOLATION property=%s replay=%s no-failing-input-found\n", prop, rp.path)
+				violations++
+			} else {
+				fmt.Printf("UNDECIDED obligation=%s (counter-model found, but the obligation is not in the ledger of the delivered tree and no replay reproduces it)\n", a.Name)
+				undecided = append(undecided, a.Name)
+			}
+		case "vacuous":
+			fmt.Printf("UNDECIDED obligation=%s (vacuity guard: the precondition or path became unsatisfiable)\n", a.Name)
+			undecided = append(undecided, a.Name)
+		default: // unknown, undecided, error
+			if changed {
+				rp := writeReplay(replayDir, prop, a, v, work, *repo)
+				if rp.reproduced {
+					fmt.Printf("VIOLATION property=%s replay=%s\n", prop, rp.path)
+				} else {
+					fmt.Printf("VIOLATION property=%s replay=%s no-failing-input-found\n", prop, rp.path)
+				}
+				violations++
+			} else {
+				why := "solver gave no answer"
+				if a.Status == "undecided" {
+					why = a.Output
+				}
+				fmt.Printf("UNDECIDED obligation=%s (%s; function unchanged since the ledger was recorded: %v)\n", a.Name, why, inLedger)
+				undecided = append(undecided, a.Name)
+			}
+		}
+	}
+	// stale contracts / engine errors
+	var errList []string
+	for fn, es := range funcErrs {
+		for _, e := range es {
+			errList = append(errList, fn+": "+e)
+		}
+	}
+	sort.Strings(errList)
+	for _, e := range errList {
+		fmt.Printf("UNDECIDED engine: %s\n", e)
+	}
+	// evidence
+	var trusted []string
+	for k := range v.trustedUsed {
+		trusted = append(trusted, "contract assumed: "+k)
+	}
+	intr := map[string]bool{}
+	for _, n := range names {
+		for k := range v.intrinsics[n] {
+			intr[k] = true
+		}
+	}
+	for k := range intr {
+		trusted = append(trusted, "built-in model of library function: "+k)
+	}
+	sort.Strings(trusted)
+	var outside []string
+	for fn, ws := range v.unsupported {
+		outside = append(outside, fn+": "+strings.Join(ws, "; "))
+	}
+	for fn, ws := range v.missing {
+		outside = append(outside, fn+": no contract for "+strings.Join(ws, "; "))
+	}
+	sort.Strings(outside)
+	level := "proof"
+	if discharged != len(agg) || len(errList) > 0 || len(agg) == 0 {
+		level = "other"
+	}
+	if lv := claimedLevel(*verif, prop); lv != "" && lv != "proof" {
+		level = lv
+	}
+	var mathFns []string
+	for _, n := range names {
+		if v.mathInt[n] {
+			mathFns = append(mathFns, n)
+		}
+	}
+	sort.Strings(mathFns)
+	cov := map[string]interface{}{
+		"obligations":              len(agg),
+		"discharged":               discharged,
+		"obligation_instances":     len(obls),
+		"checker_cmd":              fmt.Sprintf("/verif/bin/govc check %s --tier %s", prop, *tier),
+		"trusted_base":             trusted,
+		"functions_under_contract": names,
+		"functions_outside_subset": outside,
+		"by_backend":               stats.byBackend,
+		"solver_queries":           stats.queries,
+		"solver_time_s":            float64(stats.totalMs) / 1000,
+		"undecided":                undecided,
+		"known_findings":           known,
+		"engine_errors":            errList,
+		"samples":                  samples,
+		"unchecked_arithmetic_in":  mathFns,
+		"explanation": fmt.Sprintf("contract-based deductive verification of the real code: %d named obligations (%d per-path instances) generated from go/ssa of /repo's working tree for %d functions under contract; %d discharged (unsat of the negated VC), %d undecided, %d known findings, %d violations",
+			len(agg), len(obls), len(names), discharged, len(undecided), len(known), violations),
+	}
+	ev := Evidence{PropertyID: prop, Tier: *tier, Seed: seed, Level: level, Coverage: cov, Assumptions: assumptionsFor(v, names), WallS: time.Since(t0).Seconds(), Violations: violations}
+	if !*noEvidence {
+		os.MkdirAll(filepath.Join(*verif, "evidence"), 0755)
+		if err := writeJSON(filepath.Join(*verif, "evidence", prop+".json"), ev); err != nil {
+			fmt.Fprintln(os.Stderr, "cannot write evidence:", err)
+		}
+	}
+	fmt.Printf("SUMMARY property=%s tier=%s functions=%d obligations=%d discharged=%d undecided=%d known=%d violations=%d wall=%.1fs\n",
+		prop, *tier, len(names), len(agg), discharged, len(undecided), len(known), violations, time.Since(t0).Seconds())
+	if len(agg) == 0 {
+		fmt.Printf("TOOLING-ERROR property=%s no obligations were generated (vacuity guard)\n", prop)
+		return 2
+	}
+	if violations > 0 {
+		return 1
+	}
+	return 0
+}
+
+func claimedLevel(verif, prop string) string {
+	b, err := os.ReadFile(filepath.Join(verif, "MANIFEST.json"))
+	if err != nil {
+		return ""
+	}
+	var m struct {
+		Checks []struct {
+			PropertyID   string `json:"property_id"`
+			LevelClaimed struct {
+				Category string `json:"category"`
+			} `json:"level_claimed"`
+		} `json:"checks"`
+	}
+	if json.Unmarshal(b, &m) != nil {
+		return ""
+	}
+	for _, c := range m.Checks {
+		if c.PropertyID == prop {
+			return c.LevelClaimed.Category
+		}
+	}
+	return ""
+}
+
+func assumptionsFor(v *Verifier, names []string) []string {
+	out := append([]string(nil), globalAssumptions...)
+	for _, n := range names {
+		if c := v.cf.Funcs[n]; c != nil && c.Trusted {
+			out = append(out, "contract of "+n+" is assumed, its body is not verified")
+		}
+	}
+	seen := map[string]bool{}
+	for _, n := range names {
+		for callee := range v.uses[n] {
+			if c := v.cf.Funcs[callee]; c != nil && c.Trusted && !seen[callee] {
+				seen[callee] = true
+				out = append(out, "contract of "+callee+" is assumed at its call sites (marked trusted: body not verified)")
+			}
+		}
+	}
+	return out
+}
+
+// cmdLedger records the obligations discharged on the current tree.
+func cmdLedger(args []string) int {
+	fs := flag.NewFlagSet("ledger", flag.ExitOnError)
+	repo := fs.String("repo", "/repo", "repository")
+	verif := fs.String("verif", "/verif", "verif directory")
+	fs.Parse(args)
+	v, err := loadVerifier(*repo, contractPath(*repo))
+	if err != nil {
+		fmt.Fprintln(os.Stderr, err)
+		return 2
+	}
+	names := selectFuncs(v, nil, nil)
+	results := verifyMany(v, names)
+	var obls []*Obligation
+	for _, r := range results {
+		obls = append(obls, r.Obls...)
+	}
+	work := filepath.Join(*verif, ".work", fmt.Sprintf("ledger-%d", os.Getpid()))
+	defer os.RemoveAll(work)
+	solveAll(obls, work, 20, runtime.NumCPU(), false)
+	l := &Ledger{Note: "obligations discharged on the delivered tree (pinned commit + hook and fix commits); written by `govc ledger`, never at check time", Obligations: map[string]LedgerEntry{}}
+	n := 0
+	for _, a := range aggregate(obls) {
+		if a.Status == "proved" && a.Kind != "cover" {
+			l.Obligations[a.Name] = LedgerEntry{Func: a.Func, Hash: v.funcDepHash(a.Func, map[string]bool{})}
+			n++
+		} else if a.Status != "proved" {
+			fmt.Printf("not in ledger: %s (%s)\n", a.Name, a.Status)
+		}
+	}
+	if err := writeJSON(filepath.Join(*verif, "ledger.json"), l); err != nil {
+		fmt.Fprintln(os.Stderr, err)
+		return 2
+	}
+	fmt.Printf("ledger: %d obligations recorded\n", n)
+	return 0
+}
